@@ -129,6 +129,8 @@ contract(f'{TC}::_TrajectoryDataFilter.should_record', props=('C03', 'C05', 'C11
              ('seen-flags', '(self.seen_zero & 3) == ((old(self.seen_zero) | self.current_flag) & 3)'),
              ('mach-flag', 'iff((self.current_flag & 4) != 0, old(self.previous_v_mach) > 1 and '
                            'math.sqrt(velocity.x * velocity.x + velocity.y * velocity.y + velocity.z * velocity.z) / mach <= 1)'),
+             ('time-of-last-record-is-the-old-one-or-now',
+              'self.time_of_last_record == old(self.time_of_last_record) or self.time_of_last_record == time'),
              ('settings-untouched', 'self.filter == old(self.filter) and self.range_step == old(self.range_step) and '
                                     'self.time_step == old(self.time_step) and self.look_angle == old(self.look_angle)'),
          ],
